@@ -450,7 +450,9 @@ func RunResidue(e *Env) {
 	R := e.R
 	R.Rule = "soaks of all 21 call kinds ending in every way (quorum before all replies, exhaustion, context ended before sending / while queued / after sending, timeout, oversized message whose write fails, node restart breaking connections, correctable done, stream end) on 3-7 nodes; " +
 		"at quiescent points (workers finished, never-answering handlers released, replies drained) the per-node router count (read-only accessor) and the number of goroutines with frames of the library's per-call functions must be 0 (polled up to W, then reported with the survivors); " +
-		"during the soak, sampled every few hundred calls: routers <= calls still open in the harness x nodes; distinct = soak parameters"
+		"during the soak, sampled every few hundred calls: routers <= calls still open in the harness x nodes; " +
+		"directed part, with context.Background(): every call kind x {no node, one node skipped by the per-node function} x {quorum reachable, out of reach}: once every targeted server has answered, routers and per-call goroutines are back at their values from before the call, whether or not the caller collected the outcome; " +
+		"40 completed calls involving a node that has been unreachable since the manager was created (non-blocking dial, one re-dial per call) leave the process-wide goroutine count where it was (+24 slack); distinct = soak parameters / directed case"
 	R.Assume("router count is read through the build-tag accessor VerifRouterCount under the channel's own lock; goroutines are attributed by function name in the runtime's dump")
 	rng := e.Rand(18)
 	stuck := 0
@@ -552,5 +554,9 @@ func RunResidue(e *Env) {
 		R.Max("max.routers_seen_during_soak", int64(maxR))
 		R.Sample(map[string]any{"soak": o, "calls": st.calls.Load(), "max_routers_during": maxR, "routers_after": tot, "call_goroutines_after": gs - base})
 		s.cl.Close()
+	}
+	if stuck == 0 {
+		time.Sleep(200 * time.Millisecond) // goroutines of the last soak's connections wind down
+		runResidueDirected(e)
 	}
 }
